@@ -243,7 +243,7 @@ def run(chk):
     drv = common.LeanDriver('C14.lean')
     stats = {'model': 0.0, 'integral': 0.0}
     try:
-        for it in range(chk.n(10, 120)):
+        for it in range(chk.n(30, 400)):
             one_setup(chk, drv, it, stats)
     finally:
         drv.close()
